@@ -2,6 +2,7 @@ package hist
 
 import (
 	"fmt"
+	"os"
 	"strings"
 	"testing"
 
@@ -27,7 +28,9 @@ var (
 	exAB, exBC       = hx.Op{K: "excise", Key: "a", End: "b"}, hx.Op{K: "excise", Key: "b", End: "c"}
 	exAC             = hx.Op{K: "excise", Key: "a", End: "c"}
 	ingExAC          = hx.Op{K: "ingestexcise", Key: "a", End: "c", Sub: sub(hx.Op{K: "set", Key: "b"})}
-	batchAB          = hx.Op{K: "batch", Sub: sub(hx.Op{K: "set", Key: "a"}, hx.Op{K: "del", Key: "b"})}
+	// an ingested table whose largest point key equals the (exclusive) excise end
+	ingExACc = hx.Op{K: "ingestexcise", Key: "a", End: "c", Sub: sub(hx.Op{K: "set", Key: "b"}, hx.Op{K: "set", Key: "c"})}
+	batchAB  = hx.Op{K: "batch", Sub: sub(hx.Op{K: "set", Key: "a"}, hx.Op{K: "del", Key: "b"})}
 	batchBig         = hx.Op{K: "batch", Big: true, Sub: sub(hx.Op{K: "set", Key: "a"}, hx.Op{K: "set", Key: "c"})}
 	rksAC            = hx.Op{K: "rkset", Key: "a", End: "c", Suf: "@1"}
 	rkdAB            = hx.Op{K: "rkdel", Key: "a", End: "b"}
@@ -56,6 +59,7 @@ var (
 	baseCfg  = hx.Config{Name: "base"}
 	auto     = hx.Config{Name: "autocompact", AutoCompact: true, TinyFiles: true}
 	autoSt   = hx.Config{Name: "autocompact-tablestats", AutoCompact: true, TinyFiles: true, TableStats: true}
+	autoDef  = hx.Config{Name: "default-thresholds-tablestats", AutoDefault: true, TableStats: true}
 	valsep   = hx.Config{Name: "valsep", ValSep: true}
 	valsepAC = hx.Config{Name: "valsep-autocompact", ValSep: true, AutoCompact: true}
 	tinyF    = hx.Config{Name: "tinyfiles", TinyFiles: true}
@@ -81,6 +85,13 @@ func plansFor(prop string, th bool) []plan {
 			{name: "snapshots", cfg: baseCfg, mon: rd, alpha: a, depth: d(4, 5), need: [][]string{{"snap"}, maint}},
 			{name: "snapshots-l0+l6", cfg: baseCfg, mon: rd, pre: l0l6, alpha: a, depth: d(3, 4), need: [][]string{{"snap"}, maint}},
 			{name: "snapshots-autocompact", cfg: auto, mon: rd, alpha: a[:11], depth: d(3, 4), need: [][]string{{"snap"}}},
+			// table statistics on: range-deletion hints make delete-only compactions possible, which
+			// must respect open snapshots (a snapshot taken right before the DeleteRange has the
+			// tombstone's own sequence number)
+			{name: "snapshots-autocompact-tablestats", cfg: autoSt, mon: rd, pre: []hx.Op{setA, setB, flush}, alpha: []hx.Op{snap, drAC, flush, setA, closesnap, delA, compact, drAB}, depth: d(3, 4), need: [][]string{{"snap"}, {"delrange"}}},
+			// Pebble's default compaction thresholds: after the tombstone is flushed nothing but a
+			// delete-only compaction (driven by the table-stats hint) is eligible
+			{name: "snapshots-default-thresholds-tablestats", cfg: autoDef, mon: rd, pre: []hx.Op{setA, setB, flush, compact}, alpha: []hx.Op{snap, drAC, flush, setA, closesnap, delA, drAB, snap}, depth: d(3, 4), need: [][]string{{"snap"}, {"delrange"}}},
 			{name: "snapshots-with-excise", cfg: baseCfg, mon: rd, alpha: []hx.Op{setA, setB, snap, exAB, flush, delA, compact, ingExAC, closesnap}, depth: d(4, 5), need: [][]string{{"snap"}, {"excise", "ingestexcise"}}},
 		}
 		if th {
@@ -112,6 +123,7 @@ func plansFor(prop string, th bool) []plan {
 			{name: "maintenance-auto", cfg: auto, mon: rd, alpha: []hx.Op{setA, setB, delA, mergeB, drAC, flush, snap, closesnap, iter, closeiter, efos}, depth: d(4, 5), need: [][]string{{"snap", "iter", "efos"}}},
 			{name: "maintenance-auto-valsep", cfg: valsepAC, mon: monitors{latest: true, readers: true, lazy: true}, alpha: []hx.Op{sized("a", 4), sized("a", 200), sized("b", 3), delA, flush, snap, iter, compact, closesnap}, depth: d(4, 5), need: [][]string{{"snap", "iter"}}},
 			{name: "maintenance-auto-l0+l6", cfg: auto, mon: rd, pre: l0l6, alpha: a[:11], depth: d(3, 4), need: [][]string{{"snap", "iter", "efos"}}},
+			{name: "maintenance-default-thresholds-tablestats", cfg: autoDef, mon: rd, pre: []hx.Op{setA, setB, flush, compact}, alpha: []hx.Op{snap, drAC, flush, iter, setA, closesnap, delA, closeiter, efos}, depth: d(3, 4), need: [][]string{{"snap", "iter", "efos"}, {"delrange"}}},
 			{name: "maintenance-auto-tablestats", cfg: autoSt, mon: rd, alpha: []hx.Op{setA, setB, delA, drAC, flush, snap, closesnap, iter, closeiter, mergeB}, depth: d(4, 5), need: [][]string{{"snap", "iter"}}},
 		}
 		return ps
@@ -125,6 +137,9 @@ func plansFor(prop string, th bool) []plan {
 			{name: "levels-tinyfiles-auto", cfg: auto, mon: lv, alpha: a[:12], depth: d(3, 4), need: [][]string{{"flush", "ingest"}}},
 			{name: "levels-l0+l6", cfg: baseCfg, mon: lv, pre: l0l6, alpha: a, depth: d(2, 3), need: [][]string{maint}},
 			{name: "levels-tinymem", cfg: tinyMem, mon: lv, alpha: a[:13], depth: d(3, 4), need: [][]string{maint}},
+			// an older version of the excise-end key in L0 and an unflushed key inside the span (so
+			// that ingest+excise takes the flushable path)
+			{name: "levels-excise-end-key", cfg: baseCfg, mon: lv, pre: []hx.Op{setC, flush, setA}, alpha: []hx.Op{ingExACc, flush, ingExAC, compact, setC, exAB, ingA, delA}, depth: d(3, 4), need: [][]string{{"ingestexcise"}}},
 		}
 	case "C36":
 		a := []hx.Op{setA, setB, ingA, ingB, iter, flush, ingBdr, exAB, ing2, ingExAC, ingRK, exAC, delA, compact, rksAC, closeiter, batchBig}
@@ -134,6 +149,7 @@ func plansFor(prop string, th bool) []plan {
 			{name: "ingest-excise-l0+l6", cfg: baseCfg, mon: rd, pre: l0l6, alpha: a, depth: d(2, 3), need: [][]string{{"ingest", "ingestexcise", "excise"}}},
 			{name: "ingest-excise-tinymem", cfg: tinyMem, mon: rd, alpha: a, depth: d(3, 3), need: [][]string{{"ingest", "ingestexcise", "excise"}}},
 			{name: "ingest-excise-auto", cfg: auto, mon: rd, alpha: a[:12], depth: d(3, 4), need: [][]string{{"ingest", "ingestexcise", "excise"}}},
+			{name: "ingest-excise-end-key", cfg: baseCfg, mon: rd, pre: []hx.Op{setC, flush, setA}, alpha: []hx.Op{ingExACc, flush, ingExAC, compact, setC, exAB, iter, delA}, depth: d(3, 4), need: [][]string{{"ingestexcise"}}},
 		}
 	case "C39":
 		rm := monitors{latest: true, readers: true, removes: true}
@@ -204,6 +220,9 @@ func TestCheck(t *testing.T) {
 		}
 		var notes []string
 		for _, p := range plansFor(c.Prop, c.Thorough()) {
+			if only := os.Getenv("VERIF_PLAN"); only != "" && only != p.name {
+				continue // debugging aid: run a single plan
+			}
 			k := len(p.alpha)
 			n := vlib.SeqCount(k, p.depth, p.depth)
 			done, complete := c.Each(n, func(i int) {
